@@ -111,7 +111,7 @@ func DrivePQ(r *rec.Rec, rng *rand.Rand, run, ops int, variant string) {
 		div, P = 3, 9
 	}
 	cmp := run%2 == 1
-	var q xheap.PriorityQueue[int, int]
+	var q shiftPQ
 	its := map[int]iterator.Iterator[int]{}
 	emit := func(name string, args any, it int, f func() int) int {
 		res := catch(f)
